@@ -57,7 +57,17 @@ func (c *InternalCron) ScheduleEvent(ctx *core.Context, se *ScheduledEvent) erro
 		core.Log(core.DEBUG|CRON, ctx, "InternalCron.ScheduleEvent", "findrules", *fr)
 		return nil
 	}
-	return c.Cron.Add(ctx, se.Id, sched, fn)
+	return c.Cron.Add(ctx, jobId(ctx, se.Id), sched, fn)
+}
+
+// jobId qualifies a scheduled event's id with the name of the location
+// it belongs to: all locations of a System share one Cron, and rules
+// in different locations can have the same id.
+func jobId(ctx *core.Context, id string) string {
+	if loc := ctx.Location(); loc != nil {
+		return loc.Name + "\x00" + id
+	}
+	return id
 }
 
 func (c *InternalCron) Schedule(ctx *core.Context, sw *ScheduledWork) error {
@@ -102,7 +112,12 @@ func (c *InternalCron) Schedule(ctx *core.Context, sw *ScheduledWork) error {
 }
 
 func (c *InternalCron) Rem(ctx *core.Context, id string) (bool, error) {
-	return c.Cron.Rem(ctx, id)
+	found, err := c.Cron.Rem(ctx, jobId(ctx, id))
+	if err == nil && !found {
+		// A job made by Schedule() has the bare id.
+		return c.Cron.Rem(ctx, id)
+	}
+	return found, err
 }
 
 func (c *InternalCron) Persistent() bool {
